@@ -2,10 +2,6 @@
 
 package wsflate
 
-import (
-	"github.com/gobwas/httphead"
-)
-
 // vBitsCfg: a symbolic window-bits value constrained to the tier's domain
 // (quick: {0,8,11,15}; thorough: {0,8..15}; plus 1 = "offered without value" when allowed).
 func vBitsCfg(name string, allowOne bool) WindowBits {
@@ -40,133 +36,4 @@ func vLegalAnswer(off, ans Parameters) bool {
 		ok = vAnd(ok, vImplies(b != 0, vAnd(b >= 8, b <= 15)))
 	}
 	return ok
-}
-
-// C14_grid: every server configuration x every single offer: an accepted offer gets a legal
-// answer; encoding and parsing are mutual inverses.
-func C14_grid() {
-	cfg := vParams("cfg", false)
-	off := vParams("off", true)
-	opt := off.Option()
-	var back Parameters
-	vAssert(back.Parse(opt) == nil, "grid.offer_parses")
-	vAssert(back == off, "grid.parse_inverts_option")
-	e := Extension{Parameters: cfg}
-	accept, err := e.Negotiate(opt)
-	vAssert(err == nil, "grid.wellformed_offer_no_error")
-	got, accepted := e.Accepted()
-	vAssert(accepted == (len(accept.Name) != 0), "grid.accepted_flag_matches_answer")
-	if len(accept.Name) == 0 {
-		return
-	}
-	vAssert(string(accept.Name) == "permessage-deflate", "grid.answer_name")
-	vAssert(got == off, "grid.accepted_reports_offer")
-	var ans Parameters
-	vAssert(ans.Parse(accept) == nil, "grid.answer_parses")
-	vAssert(vLegalAnswer(off, ans), "grid.answer_legal")
-	// a second negotiation on the same extension accepts nothing more
-	again, err := e.Negotiate(opt)
-	vAssert(vAnd(err == nil, len(again.Name) == 0), "grid.at_most_one_accepted")
-	e.Reset()
-	vAssert(e == Extension{Parameters: cfg}, "grid.reset_as_new")
-}
-
-// C14_lists: at most one offer of a list is accepted and it is the first acceptable one.
-func C14_lists() {
-	cfg := vParams("cfg", false)
-	n := 2 + vTier()
-	e := Extension{Parameters: cfg}
-	firstOK := -1
-	acceptedAt := -1
-	for i := 0; i < n; i++ {
-		off := Parameters{
-			ServerNoContextTakeover: vChoose("off.snct", 2) == 1,
-			ServerMaxWindowBits:     []WindowBits{0, 9, 15}[vChoose("off.sbits", 3)],
-			ClientMaxWindowBits:     []WindowBits{0, 1, 12}[vChoose("off.cbits", 3)],
-		}
-		single := Extension{Parameters: cfg}
-		a1, _ := single.Negotiate(off.Option())
-		if len(a1.Name) != 0 && firstOK < 0 {
-			firstOK = i
-		}
-		a, err := e.Negotiate(off.Option())
-		vAssert(err == nil, "lists.no_error")
-		if len(a.Name) != 0 {
-			vAssert(acceptedAt < 0, "lists.at_most_one")
-			acceptedAt = i
-		}
-	}
-	vAssert(acceptedAt == firstOK, "lists.first_acceptable_wins")
-	// other extensions are never answered
-	other := httphead.Option{Name: []byte("x-other")}
-	fresh := Extension{Parameters: cfg}
-	a, err := fresh.Negotiate(other)
-	vAssert(vAnd(err == nil, len(a.Name) == 0), "lists.foreign_extension_ignored")
-}
-
-// C14_malformed: offers with unknown, duplicated or ill-valued parameters are errors.
-func C14_malformed() {
-	keys := []string{"server_no_context_takeover", "client_no_context_takeover", "server_max_window_bits", "client_max_window_bits", "x_unknown"}
-	np := 1 + vChoose("np", 2+vTier())
-	opt := httphead.Option{Name: []byte("permessage-deflate")}
-	seen := [5]int{}
-	mustErr, mayEither := false, false
-	for i := 0; i < np; i++ {
-		k := vChoose("key", len(keys))
-		vl := vChoose("vlen", 3)
-		val := vBytes("val", vl)
-		if vl == 0 {
-			val = nil
-		}
-		opt.Parameters.Set([]byte(keys[k]), val)
-		seen[k]++
-		if seen[k] > 1 || k == 4 {
-			mustErr = true
-		}
-		switch k {
-		case 0, 1:
-			if vl != 0 {
-				mustErr = true
-			}
-		case 2, 3:
-			if vl == 0 {
-				if k == 2 {
-					mustErr = true
-				}
-				continue
-			}
-			digits := true
-			for _, c := range val {
-				digits = vAnd(digits, vIn(c, '0', '9'))
-			}
-			var num uint64
-			for _, c := range val {
-				num = num*10 + uint64(c-'0')
-			}
-			inRange := vAnd(num >= 8, num <= 15)
-			leadingZero := vAnd(vl == 2, val[0] == '0')
-			if vConcrete(vIte(vAnd(digits, vAnd(inRange, !leadingZero)), 1, 0)) == 1 {
-				// plainly valid value
-			} else if vConcrete(vIte(vAnd(digits, vAnd(inRange, leadingZero)), 1, 0)) == 1 {
-				mayEither = true // leading zeros: left open
-			} else {
-				mustErr = true
-			}
-		}
-	}
-	var p Parameters
-	err := p.Parse(opt)
-	if mustErr {
-		vAssert(err != nil, "malformed.rejected")
-	} else if !mayEither {
-		vAssert(err == nil, "malformed.wellformed_accepted")
-	}
-	// the negotiator reports the same error and accepts nothing
-	e := Extension{}
-	a, nerr := e.Negotiate(opt)
-	vAssert((nerr != nil) == (err != nil), "malformed.negotiate_same_verdict")
-	if nerr != nil {
-		_, acc := e.Accepted()
-		vAssert(vAnd(len(a.Name) == 0, !acc), "malformed.nothing_accepted_on_error")
-	}
 }
